@@ -259,7 +259,9 @@ def replay_state(st: dict, out: dict, want_event: bool, want_rejects: bool, want
         V(["C07", "C09"], "process() changed the structure/metadata of the tree passed in")
     # ---- the same final call issued on the PROCESSED base tree (payloaded transfers / materializations):
     #      rebuilding a transfer upstream of which an operation was inserted must not keep a stale payload
-    if st["final"] and last is not None and last["f"] == "un" and len(st["hist"]) >= 2 and (st["ldet"] or st["bdet"]) and not st["kf2"]:
+    ptree = st.get("ptree") or {"k": "none"}
+    if st["final"] and last is not None and len(st["hist"]) >= 2 and (
+            ptree.get("k") != "none" or (last["f"] == "un" and (st["ldet"] or st["bdet"]) and not st["kf2"])):
         proc2 = make_processor(w.conn, w.eng["sql"])
         try:
             w2 = World(st)
@@ -269,9 +271,21 @@ def replay_state(st: dict, out: dict, want_event: bool, want_rejects: bool, want
             try:
                 pbase = proc2.process(base)
                 rel2 = w2.call(last, pbase)
+                if ptree.get("k") != "none":
+                    # structure AND payload flags of the result vs MultiEngine!PRes (RA_Proc + RA_Engine on a payloaded tree)
+                    real_p = canon_tree(project.strip_sel_target(project.tree(rel2)), keep_p=True)
+                    model_p = canon_tree(project.strip_sel_target(ptree), keep_p=True)
+                    cnt["processed_base_trees_compared"] = cnt.get("processed_base_trees_compared", 0) + 1
+                    if real_p != model_p:
+                        out["n_drift"] += 1
+                        if len(out["drift"]) < 3:
+                            out["drift"].append({"what": "the final call issued on the processed base tree gives a tree (with payload flags) "
+                                                         "different from the model's", "case": case, "real": real_p, "model": model_p})
                 got2, _ = evaluate(w2, rel2, proc2)
                 cnt["processed_base_variants"] = cnt.get("processed_base_variants", 0) + 1
-                bad2 = (got2 != exp) if st["ldet"] else (bag(got2) != bag(exp))
+                bad2 = False
+                if (st["ldet"] or st["bdet"]) and not st["kf2"]:
+                    bad2 = (got2 != exp) if st["ldet"] else (bag(got2) != bag(exp))
                 if bad2 and not _kf2(st, project.tree(rel2)):
                     V(["C03", "C07", "C09"], "the final call issued on the already PROCESSED base tree gives different rows "
                                              "(a rebuilt marker kept a stale payload?)", observed=got2, expected=exp)
@@ -441,6 +455,13 @@ def run(tier: str, seed: int) -> list[Part]:
         parts.append(part)
     # companion: the excluded class (open finding F2) still violates in the model
     t0 = time.time()
+    kf17 = run_tlc("MC_Multi.tla", "MultiKF17.cfg", expect_violation=True, heap="3g")
+    if kf17.violated != "F17Gone":
+        raise MachineryError(f"companion MultiKF17 (backtrack_unary as at the pinned commit) no longer violates F17Gone (got {kf17.violated})")
+    p17 = Part(name="multiengine:F17-companion", cfg="MultiKF17.cfg", states=max(kf17.distinct, 1), transitions=max(kf17.generated, 1))
+    p17.notes.append("with the pinned-commit rule (a failed backtrack rebuilds a payloaded transfer) TLC re-derives finding F17 "
+                     "(ProcessedBaseSound violated)")
+    parts.append(p17)
     kf = run_tlc("MC_Multi.tla", "MultiKF2.cfg", expect_violation=True, heap="3g")
     if kf.violated != "KF2Gone":
         raise MachineryError(f"companion MultiKF2 no longer violates KF2Gone (got {kf.violated})")
